@@ -13,14 +13,16 @@ def as_input(X, chunks):
 
 
 def run_kfit(init, X, chunks=None, cap=5, cthr=None, **kw):
-    km = KMeansMachine(n_clusters=len(init), init_method=np.array(init, dtype=float), max_iter=cap,
+    km = KMeansMachine(n_clusters=len(init), init_method=np.array(init), max_iter=cap,
                        convergence_threshold=cthr, **kw)
     with LogCounter("bob.learn.em.kmeans") as lc:
         km.fit(as_input(X, chunks))
-    cvs = []
+    crit = []
     for msg in lc.records:
-        if msg.startswith("Convergence value = "):
-            cvs.append(float(msg.split("=")[1].split("and")[0]))
+        if msg.startswith("Average minimal squared Euclidean distance = "):
+            crit.append(float(msg.split("=")[1]))
+    # relative changes recomputed from the reported criterion (independent of the implementation's own test value)
+    cvs = [abs((crit[k - 1] - crit[k]) / crit[k - 1]) for k in range(1, len(crit)) if crit[k - 1] not in (0.0,) and np.isfinite(crit[k - 1])]
     return km, lc.count, cvs
 
 
